@@ -186,7 +186,7 @@ def run(repo: Repo, ctx) -> None:
         gset = {f for f in G[q] if not f.startswith('<')}
         # reads by the handler itself: what _register_item touches on the
         # declaration for other purposes does not count as tracing
-        fr2 = V.FieldReads(repo)
+        fr2 = V.FieldReads(repo, value_only=True)
         fr2.memo[(ri.qualname, 'decl')] = set()
         fr2.memo[(ri.qualname, 'op')] = set()
         reads = fr2.reads(h, h.params()[0])
